@@ -127,4 +127,56 @@ theorem bls_gt_generator_order :
     powBits (· * ·) 1 Bls.gtGenerator blsR = (1 : BlsFp12) ∧ Bls.gtGenerator ≠ 1 := by
   decide +kernel
 
+/-! ### Relations that make `frobenius_map` a ring endomorphism (hypotheses of
+`Tower12.frob_ringEndo`, `Proofs/C13/Frob.lean`), on the parsed tables, for every power `k < 12`:
+`C1[k%6]³·ξ = frob_k(ξ)`, `C2[k%6] = C1[k%6]²`, `C12[k%12]² = C1[k%6]`. -/
+theorem bn_frob_relations :
+    (List.range 12).all (fun k =>
+      let g1 : BnFq2 := FrobCoeffs.c6c1 (k % 6)
+      let g2 : BnFq2 := FrobCoeffs.c6c2 (k % 6)
+      let g12 : BnFq2 := FrobCoeffs.c12c1 (k % 12)
+      decide (g1 * g1 * g1 * bnXi = Frob.frob k bnXi) && decide (g2 = g1 * g1) && decide (g12 * g12 = g1)) = true := by
+  decide +kernel
+
+theorem bls_frob_relations :
+    (List.range 12).all (fun k =>
+      let g1 : BlsFp2 := FrobCoeffs.c6c1 (k % 6)
+      let g2 : BlsFp2 := FrobCoeffs.c6c2 (k % 6)
+      let g12 : BlsFp2 := FrobCoeffs.c12c1 (k % 12)
+      decide (g1 * g1 * g1 * blsXi = Frob.frob k blsXi) && decide (g2 = g1 * g1) && decide (g12 * g12 = g1)) = true := by
+  decide +kernel
+
+/-- The `TABLE[power % N]` sites use the table lengths as moduli. -/
+theorem frob_index_moduli : bnFrobIdx = (6, 6, 12) ∧ blsFrobIdx = (2, 6, 6, 12) := by decide
+
+/-- `FROBENIUS_COEFF_FP2_C1[i]² = 1` (so `γ²·(−1) = −1`: the `Fp2` map is a ring endomorphism over
+the identity of `Fp`). -/
+theorem bls_frob2_relation : blsFrob2C1.all (fun c => c * c % blsP == 1) = true := by decide +kernel
+
+/-- The non-residues are non-residues (Euler's criterion, evaluated): `p ≡ 3 (mod 4)` (so `−1` is not a
+square in `Fp`), and `ξ^((p²−1)/2) ≠ 1`, `ξ^((p²−1)/3) ≠ 1` in `Fp2` (so `ξ` is neither a square nor a
+cube: `X³ − ξ` and then `X² − v` are irreducible, the towers are fields and `invert` is `None` only
+at zero). -/
+theorem nonresidue_checks :
+    (bnP % 4 = 3 ∧ fq2Pow bnXi ((bnP ^ 2 - 1) / 2) ≠ 1 ∧ fq2Pow bnXi ((bnP ^ 2 - 1) / 3) ≠ 1
+      ∧ (bnP ^ 2 - 1) % 6 = 0)
+    ∧ (blsP % 4 = 3 ∧ fq2Pow blsXi ((blsP ^ 2 - 1) / 2) ≠ 1 ∧ fq2Pow blsXi ((blsP ^ 2 - 1) / 3) ≠ 1
+      ∧ (blsP ^ 2 - 1) % 6 = 0) := by
+  decide +kernel
+
+/-- The table entries used by the `p²`- and `p⁴`-power Frobenius are powers of one primitive sixth root
+of unity `ω = C12[2]` (`ω² − ω + 1 = 0`): `C1[2] = ω²`, `C2[2] = ω⁴`, `C12[4] = ω²`, `C1[4] = ω⁴`,
+`C2[4] = ω⁸` — the hypotheses of `Tower12.frob_eq_twistScale` / `cyclotomicSquare_eq`
+(`Proofs/C13/Cyclotomic.lean`) for `k = 2` (with `ω`) and `k = 4` (with `ω²`). -/
+theorem cyclotomic_constants :
+    (let w : BnFq2 := FrobCoeffs.c12c1 2
+     decide (w * w - w + 1 = 0) && decide (FrobCoeffs.c6c1 2 = w * w) && decide (FrobCoeffs.c6c2 2 = w * w * (w * w))
+      && decide (FrobCoeffs.c12c1 4 = w * w) && decide (FrobCoeffs.c6c1 4 = w * w * (w * w))
+      && decide (FrobCoeffs.c6c2 4 = w * w * (w * w) * (w * w * (w * w)))) = true
+    ∧ (let w : BlsFp2 := FrobCoeffs.c12c1 2
+     decide (w * w - w + 1 = 0) && decide (FrobCoeffs.c6c1 2 = w * w) && decide (FrobCoeffs.c6c2 2 = w * w * (w * w))
+      && decide (FrobCoeffs.c12c1 4 = w * w) && decide (FrobCoeffs.c6c1 4 = w * w * (w * w))
+      && decide (FrobCoeffs.c6c2 4 = w * w * (w * w) * (w * w * (w * w)))) = true := by
+  decide +kernel
+
 end MidnightZK.C13.Consts
